@@ -105,6 +105,10 @@ func (w *World) Ev(kind string, a int, format string, args ...any) {
 	w.mix(kind, a)
 	if w.Verbose {
 		w.Text = append(w.Text, fmt.Sprintf("%6d %-10s ", w.Steps, kind)+fmt.Sprintf(format, args...))
+		if len(w.Text) > 60000 {
+			// long runs: keep the beginning and the end
+			w.Text = append(w.Text[:20000:20000], w.Text[len(w.Text)-20000:]...)
+		}
 	}
 }
 
@@ -207,10 +211,17 @@ type Sim struct {
 
 	conns     []*Conn
 	netParks  map[string]int
-	OnLoopEnd func() // called when the scheduler loop has ended, before the unwinding
-	Unwind    func() // called when the incarnation is turned into a zombie
+	Releases  map[string]int // times each goroutine was released from a park
+	OnLoopEnd func()         // called when the scheduler loop has ended, before the unwinding
+	Unwind    func()         // called when the incarnation is turned into a zombie
 	NoYield   bool
 	tickW     int
+	// starvation mode: now and then one goroutine is held back for a
+	// stretch of steps while everything else proceeds (orderings that
+	// uniform choice reaches with vanishing probability)
+	StarveP    int // permille per step of starting a stretch
+	starveG    string
+	starveLeft int
 	TickTime  time.Duration // simulated time passed in tick actions and injected stalls
 }
 
@@ -289,6 +300,7 @@ func (s *Sim) Go(name string, f func()) {
 }
 
 func (s *Sim) unpark(p *park) {
+	s.Releases[p.g]++
 	for i, q := range s.parked {
 		if q == p {
 			s.parked = append(s.parked[:i], s.parked[i+1:]...)
@@ -325,7 +337,7 @@ func RunBubble(w *World, setup func(s *Sim)) (s *Sim) {
 		}
 	}()
 	synctest.Test(w.T, func(t *testing.T) {
-		s = &Sim{W: w, names: map[uint64]string{}, notify: make(chan struct{}, 1), epoch: time.Now(), tickW: 1, base: w.SimTime, netParks: map[string]int{}}
+		s = &Sim{W: w, names: map[uint64]string{}, notify: make(chan struct{}, 1), epoch: time.Now(), tickW: 1, base: w.SimTime, netParks: map[string]int{}, Releases: map[string]int{}}
 		s.rootG = verifsim.Goid()
 		w.rootG = s.rootG
 		verifsim.Hook = s.hook
@@ -399,6 +411,9 @@ func (s *Sim) loop() {
 			for i := range acts {
 				ws[i] = acts[i].Weight
 			}
+			if s.StarveP > 0 {
+				s.starve(acts, ws)
+			}
 			pick = &acts[w.Tape.Pick("act", ws)]
 		} else {
 			w.Probe("aged_forced")
@@ -412,6 +427,44 @@ func (s *Sim) loop() {
 		pick.Run()
 		if s.Stopped {
 			return
+		}
+	}
+}
+
+// starve zeroes the weights of the held-back goroutine's actions, as long as
+// something else than the passing of time remains possible.
+func (s *Sim) starve(acts []Action, ws []int) {
+	w := s.W
+	if s.starveLeft > 0 {
+		s.starveLeft--
+	} else if w.Tape.Flip("starve", s.StarveP) {
+		var gs []string
+		for i := range acts {
+			if p := acts[i].p; p != nil && (len(gs) == 0 || gs[len(gs)-1] != p.g) {
+				gs = append(gs, p.g)
+			}
+		}
+		if len(gs) > 1 {
+			s.starveG = gs[w.Tape.Draw("starveg", len(gs))]
+			s.starveLeft = 4 + w.Tape.Draw("starven", 120)
+			w.Probe("goroutine_held_back")
+		}
+	}
+	if s.starveLeft == 0 {
+		return
+	}
+	other := false
+	for i := range acts {
+		if ws[i] > 0 && acts[i].Name != "tick" && (acts[i].p == nil || acts[i].p.g != s.starveG) {
+			other = true
+		}
+	}
+	if !other {
+		return
+	}
+	for i := range acts {
+		if acts[i].p != nil && acts[i].p.g == s.starveG {
+			ws[i] = 0
 		}
 	}
 }
